@@ -1,4 +1,4 @@
-import QuiverModel.Lemmas.Sys.Await
+import QuiverModel.Lemmas.Sys.Faithful
 /-
 C04 — Messages: exactly-once, per-sender FIFO, and no lost wake-ups.
 
@@ -294,6 +294,26 @@ theorem pending_await_completes (n : Nat) (prog : Prog) (req : Nat) (hn : 0 < n)
   rcases wakeup_invariant n prog req hn hwf cs with h | h
   · rw [h.pending] at hp; cases hp
   · exact h.core.pend p pa hp w hw
+
+/-- **Results are stable**: from any state satisfying the scheduling invariant (every state after
+start-up does: `sched_invariant`), no scheduler choice changes the result of a process that has one. -/
+theorem results_stable (s : Sys) (h : SInv s) (c : Choice) : ResMono s (sysStep s c) ∧ SInv (sysStep s c) := by
+  have := sysStep_invariant Rules.current (fun s' => SInv s' ∧ ResMono s s')
+    (fun s' m hs => ⟨hs.1.micro Rules.current_sane m, hs.2.trans (ResMono.micro hs.1 m)⟩) s c ⟨h, ResMono.refl s⟩
+  exact ⟨this.2, this.1⟩
+
+/-- **Completion reports are truthful**: every completed target in a ProcessResults event in flight
+carries exactly the result that target has on the reporting worker (and, by `results_stable`, will
+always have).  The later links of the answer chain copy it verbatim (`mergeAnswer` / flatten /
+`applyResults`; `await_answer_complete_partial`). -/
+theorem reports_truthful (n : Nat) (prog : Prog) (req : Nat) (hn : 0 < n) (hwf : ProgWF prog) (cs : List Choice)
+    (w : Wid) (a : Pid) (rs : Results) (hm : Evt.procResults a rs ∈ (reach n prog req cs).evtQ w)
+    (t : Pid) (r : Res) (htr : (t, some r) ∈ rs) : ((reach n prog req cs).wk w).resultOf t = some r := by
+  have hinv : PreStart (reach n prog req cs) ∨ EInv (reach n prog req cs) :=
+    invariant_from_init Rules.current EInv (fun _ h => EInv.of_started h) (fun _ m h => h.micro m) n prog req hn hwf cs
+  rcases hinv with h | h
+  · rw [h.evtQ w] at hm; simp at hm
+  · exact h.evt w a rs hm t r htr
 
 /-- `notify_spawn` re-queues the caller iff it was parked in `spawning` (and always hands it the
 pid): the handler on an arbitrary state. -/
